@@ -60,6 +60,12 @@ func c20Bytes(c *admCase) ([]byte, error) {
 		fixed = 1
 	}
 	rest := ms[fixed:]
+	if strings.HasPrefix(c.Order, "mimelast") && fixed == 1 {
+		// the mimetype member moves to the end of the archive
+		rest = append(append([]zmember{}, rest...), ms[0])
+		fixed = 0
+		ms = nil
+	}
 	if c.Order == "reversed" || c.Order == "decoyfirst" {
 		for i, j := 0, len(rest)-1; i < j; i, j = i+1, j-1 {
 			rest[i], rest[j] = rest[j], rest[i]
@@ -72,6 +78,9 @@ func c20Bytes(c *admCase) ([]byte, error) {
 		} else {
 			rest = append(rest, d)
 		}
+	}
+	if fixed == 0 {
+		return zipOf(rest)
 	}
 	return zipOf(append(ms[:fixed:fixed], rest...))
 }
